@@ -1165,6 +1165,33 @@ impl World {
                 }
             }
         }
+        // Same idea across kinds: record-level faults can turn a stored encapsulation into the
+        // complete, unmodified encapsulation carried by another stored object (a header's or a
+        // ciphertext's). What it opens to is then that object's business: the only thing checked
+        // is that nothing but that object's secret comes out.
+        if src == slot && s0.bytes != s0.orig && s0.kind == SlotKind::Kem {
+            let donor = self.slots.iter().enumerate().find(|(j, o)| {
+                *j != slot
+                    && match o.kind {
+                        SlotKind::Kem => false,
+                        SlotKind::Pke => o.enc_len > 0 && o.orig.len() >= o.enc_len && o.orig[..o.enc_len] == s0.bytes[..],
+                        SlotKind::Header => wire::parse_header(&o.orig).map(|h| o.orig[..h.enc.end] == s0.bytes[..]).unwrap_or(false),
+                    }
+            });
+            if donor.is_some() {
+                self.stats.probe("encapsulation-replaced-by-the-one-of-another-object");
+                let out = match &r {
+                    Err(_) => "panic",
+                    Ok(Err(_)) => "err",
+                    Ok(Ok(None)) => "none",
+                    Ok(Ok(Some(_))) => "some",
+                };
+                self.outcomes.push(format!("read:{out}"));
+                // (what it opens to is the seed of that object, which the store does not keep: a
+                // header returns a secret derived from it)
+                return;
+            }
+        }
         let bytes_now = s0.bytes.clone();
         let s = &self.slots[src];
         let tampered = bytes_now != s.orig;
